@@ -431,3 +431,29 @@ Example ex_spec_serve :
   /\ spec_serve (table_of ex_regs) false false "PUT" "/a/a/b" = RNotAllowed ["GET"; "POST"]
   /\ spec_serve (table_of ex_regs) false false "GET" "/zz" = RNotFound.
 Proof. vm_compute. repeat split. Qed.
+
+(* inside the side condition the case table leaves no freedom: two responses obeying it are the
+   same (Allow up to order) *)
+Theorem case_table_determines_response : forall regs nf na m p segs r1 r2,
+  clean_path p = Some segs ->
+  one_var_name_per_position (table_of regs) = true ->
+  resp_ok (table_of regs) nf na m segs r1 -> resp_ok (table_of regs) nf na m segs r2 ->
+  resp_equiv r1 r2.
+Proof. exact L_case_table_functional. Qed.
+Print Assumptions case_table_determines_response.
+
+(* two registration histories leaving the same SET of routes answer every request alike: the
+   order of Handle calls (hence of AddRoutes calls, groups, mounts) is irrelevant *)
+Theorem registration_order_irrelevant : forall nf na regs regs' m p,
+  (forall t, In t (table_of regs) <-> In t (table_of regs')) ->
+  one_var_name_per_position (table_of regs) = true ->
+  resp_equiv (serve (router_of nf na regs) m p) (serve (router_of nf na regs') m p).
+Proof. exact L_registration_order_irrelevant. Qed.
+Print Assumptions registration_order_irrelevant.
+
+Example ex_order_irrelevant :
+  serve (router_of false false [mkReg "GET" "/a/:x" 0%Z; mkReg "GET" "/a/b" 1%Z; mkReg "POST" "/a/b" 2%Z]) "PUT" "/a/b"
+  = RNotAllowed ["GET"; "POST"] /\
+  serve (router_of false false [mkReg "POST" "/a/b" 2%Z; mkReg "GET" "/a/b" 1%Z; mkReg "GET" "/a/:x" 0%Z]) "PUT" "/a/b"
+  = RNotAllowed ["POST"; "GET"].
+Proof. vm_compute. split; reflexivity. Qed.
